@@ -10,7 +10,8 @@ def Fits (cfg : Cfg) (lw : Nat) (secs : List Sec) : Prop :=
   ∀ sec ∈ secs, ∀ g ∈ sec.2, g.w + cfg.leftSym.w ≤ lw
 
 def mu (st : St) : Nat :=
-  2 * clusterCount st.stack + 2 * st.stack.length + (if 0 < st.len then 1 else 0)
+  4 * clusterCount st.stack + 4 * st.stack.length + (if 0 < st.len then 2 else 0) +
+    (if st.curr = [] then 0 else 1)
 
 theorem gsWidth_pos {gs : List G} (h : 0 < gsWidth gs) : ∃ g ∈ gs, 0 < g.w := by
   induction gs with
@@ -28,104 +29,145 @@ theorem fits_step {fx : Fixes} {cfg : Cfg} {sym lw : Nat} {st st' : St} (hf : Fi
   | push style gs rest hs hl hfit =>
     intro sec hsec; exact hf sec (by rw [hs]; exact List.mem_cons_of_mem _ hsec)
   | nl style gs rest hs hl heq hnl => intro sec hsec; cases hsec
-  | split0 style gs rest hs hl hge hnf hw hns hnfo => rw [← hs]; exact hf
-  | splitk style gs rest hs hl hge hnf hw =>
+  | split0 style gs rest hs hl hge hnf hns hw => rw [← hs]; exact hf
+  | splitk style gs rest hs hl hge hnf hns hw =>
     intro sec hsec g hg
     simp at hsec
     cases hsec with
     | inl h1 =>
       subst h1
-      exact hf (style, gs) (by rw [hs]; simp) g (takeFitF_snd_subset _ _ _ _ g hg)
+      exact hf (style, gs) (by rw [hs]; simp) g (takeFit_snd_subset _ _ g hg)
     | inr h2 => exact hf sec (by rw [hs]; exact List.mem_cons_of_mem _ h2) g hg
 
-/-- Under `Fits`, on an empty line, the first cluster of a section that must be split fits:
-the progress repair never has to force anything. -/
-theorem takeFitF_fits {fx : Fixes} {cfg : Cfg} {lw len : Nat} {gs : List G}
-    (hf : ∀ g ∈ gs, g.w + cfg.leftSym.w ≤ lw) (hge : lw ≤ len + gsWidth gs) :
-    takeFitF fx len (widthLeft cfg lw len gs) gs = takeFit (widthLeft cfg lw len gs) gs := by
-  apply takeFitF_eq
-  by_cases h0 : len = 0
-  · right; right
-    subst h0
-    intro g hg
-    have := hf g hg
-    unfold widthLeft
-    omega
-  · right; left; exact h0
+/-- Under `Fits`, on a row without visible text, the first cluster of a section that must be
+split fits next to the wrap symbol. -/
+theorem first_fits_of_fits {cfg : Cfg} {lw : Nat} {g : G} {gs : List G}
+    (hf : ∀ g' ∈ g :: gs, g'.w + cfg.leftSym.w ≤ lw) (hge : lw ≤ gsWidth (g :: gs)) (h2 : 2 ≤ lw) :
+    g.w ≤ widthLeft cfg lw 0 (g :: gs) ∧ 0 < widthLeft cfg lw 0 (g :: gs) := by
+  obtain ⟨g', hg', hp⟩ := gsWidth_pos (gs := g :: gs) (by omega)
+  have h1 := hf g' hg'
+  have h0 := hf g (by simp)
+  unfold widthLeft
+  omega
 
-/-- With `Fits`, or with the progress repair, every iteration decreases the measure. -/
-theorem mu_step_fits {fx : Fixes} {cfg : Cfg} {sym lw : Nat} {st st' : St}
-    (hf : fx.forceProgress = true ∨ Fits cfg lw st.stack)
-    (h : StepRel fx cfg sym lw st st') : mu st' < mu st := by
+/-- What "no progress" means for an iteration that splits on a row without visible text. -/
+theorem no_progress_cases {fx : Fixes} {cfg : Cfg} {sym lw : Nat} {st st' : St}
+    (h : StepRel fx cfg sym lw st st') :
+    mu st' < mu st ∨
+    (st.len = 0 ∧ ∃ style gs rest, st.stack = (style, gs) :: rest ∧
+      lw ≤ gsWidth gs ∧ ¬ (gsWidth gs = lw ∧ PerfectRest fx rest) ∧
+      (widthLeft cfg lw 0 gs = 0 ∨ widthLeft cfg lw 0 gs < firstW gs) ∧
+      ¬ StuckStop fx cfg lw st gs ∧ st.curr = [] ∧ st'.stack = st.stack ∧ st'.curr = [] ∧ st'.len = 0 ∧
+      ∃ row, st'.result = st.result ++ [row]) := by
   cases h with
   | push style gs rest hs hl hfit =>
+    left
     simp only [mu, hs, clusterCount, List.length_cons]
-    split <;> split <;> omega
+    have : (st.curr ++ [(style, gs)] = []) = False := by simp
+    simp only [this, if_false]
+    split <;> split <;> split <;> omega
   | nl style gs rest hs hl heq hnl =>
+    left
     simp only [mu, hs, clusterCount, List.length_cons, List.length_nil]
-    split <;> split <;> omega
-  | split0 style gs rest hs hl hge hnf hw hns hnfo =>
-    have h2 := lw_ge_two_of_not_limit hl
-    have hpos : 0 < st.len := by
-      apply Nat.pos_of_ne_zero
-      intro h0
-      cases hf with
-      | inl hforce => exact hnfo ⟨hforce, h0⟩
-      | inr hf =>
-        rw [h0] at hge hw
-        have hfs : ∀ g ∈ gs, g.w + cfg.leftSym.w ≤ lw := hf (style, gs) (by rw [hs]; simp)
-        obtain ⟨g, hg, hgp⟩ := gsWidth_pos (gs := gs) (by omega)
-        have := hfs g hg
-        unfold widthLeft at hw
-        omega
-    simp only [mu, hs, clusterCount, List.length_cons]
-    simp [hpos]
-  | splitk style gs rest hs hl hge hnf hw =>
-    have h2 := lw_ge_two_of_not_limit hl
+    have : (st.curr ++ (style, gs) :: rest = []) = False := by simp
+    simp only [this, if_false]
+    split <;> split <;> split <;> omega
+  | split0 style gs rest hs hl hge hnf hns hw =>
     by_cases hpos : 0 < st.len
-    · have := takeFitF_snd_length_le fx st.len (widthLeft cfg lw st.len gs) gs
+    · left
       simp only [mu, hs, clusterCount, List.length_cons]
       simp [hpos]
-      omega
+      split <;> omega
     · have h0 : st.len = 0 := by omega
-      rw [h0] at hge
+      by_cases hc : st.curr = []
+      · right
+        rw [h0] at hge hnf
+        simp only [Nat.zero_add] at hge hnf
+        refine ⟨h0, style, gs, rest, hs, hge, hnf, ?_, hns, hc, hs.symm, rfl, rfl, _, rfl⟩
+        left
+        have := hw.1
+        rw [h0] at this
+        exact this
+      · left
+        simp only [mu, hs, clusterCount, List.length_cons]
+        simp [hc]
+  | splitk style gs rest hs hl hge hnf hns hw =>
+    have hle := takeFit_snd_length_le (widthLeft cfg lw st.len gs) gs
+    by_cases hpos : 0 < st.len
+    · left
+      simp only [mu, hs, clusterCount, List.length_cons]
+      simp [hpos]
+      split <;> omega
+    · have h0 : st.len = 0 := by omega
       cases gs with
+      | nil =>
+        have h2 := lw_ge_two_of_not_limit hl
+        rw [h0] at hge
+        simp [gsWidth] at hge
+        omega
+      | cons g gs =>
+        by_cases hfit : g.w ≤ widthLeft cfg lw st.len (g :: gs)
+        · left
+          have := takeFit_progress (widthLeft cfg lw st.len (g :: gs)) g gs hfit
+          simp only [mu, hs, clusterCount, List.length_cons] at this ⊢
+          simp [h0]
+          split <;> omega
+        · by_cases hc : st.curr = []
+          · right
+            rw [h0] at hge hnf hfit
+            simp only [Nat.zero_add] at hge hnf
+            refine ⟨h0, style, g :: gs, rest, hs, hge, hnf, ?_, hns, hc, ?_, rfl, rfl, _, rfl⟩
+            · right; simp only [firstW]; omega
+            · rw [h0, takeFit_stuck _ g gs (by omega), hs]
+          · left
+            rw [takeFit_stuck _ g gs (by omega)]
+            simp only [mu, hs, clusterCount, List.length_cons]
+            simp [hc, h0]
+
+/-- With `Fits`, or with the progress repair and no line limit, every iteration decreases the
+measure. -/
+theorem mu_step_fits {fx : Fixes} {cfg : Cfg} {sym lw : Nat} {st st' : St}
+    (hf : (fx.stuckStop = true ∧ effMax cfg lw = 0) ∨ Fits cfg lw st.stack)
+    (h : StepRel fx cfg sym lw st st') : mu st' < mu st := by
+  have hl2 : 2 ≤ lw := by
+    cases h with
+    | push _ _ _ _ hl _ => exact lw_ge_two_of_not_limit hl
+    | nl _ _ _ _ hl _ _ => exact lw_ge_two_of_not_limit hl
+    | split0 _ _ _ _ hl _ _ _ _ => exact lw_ge_two_of_not_limit hl
+    | splitk _ _ _ _ hl _ _ _ _ => exact lw_ge_two_of_not_limit hl
+  rcases no_progress_cases h with hlt | ⟨h0, style, gs, rest, hs, hge, hnf, hno, hns, hc, _⟩
+  · exact hlt
+  · exfalso
+    rcases hf with ⟨hss, hu⟩ | hf
+    · exact hns ⟨hss, hu, hc, by rw [h0]; exact hno⟩
+    · cases gs with
       | nil => simp [gsWidth] at hge; omega
       | cons g gs =>
-        have hprog : (takeFitF fx 0 (widthLeft cfg lw 0 (g :: gs)) (g :: gs)).2.length < (g :: gs).length := by
-          cases hf with
-          | inl hforce => exact takeFitF_progress fx _ g gs hforce
-          | inr hf =>
-            have hfs : ∀ g' ∈ g :: gs, g'.w + cfg.leftSym.w ≤ lw := hf (style, g :: gs) (by rw [hs]; simp)
-            rw [takeFitF_fits hfs (by omega)]
-            have := hfs g (by simp)
-            apply takeFit_progress
-            unfold widthLeft
-            omega
-        simp only [mu, hs, clusterCount, List.length_cons, h0] at hprog ⊢
-        simp
+        have hfs : ∀ g' ∈ g :: gs, g'.w + cfg.leftSym.w ≤ lw := hf (style, g :: gs) (by rw [hs]; simp)
+        have := first_fits_of_fits hfs hge hl2
+        simp only [firstW] at hno
         omega
 
 /-- Without any hypothesis the measure never increases, and splits add a row. -/
 theorem mu_step_limited {fx : Fixes} {cfg : Cfg} {sym lw : Nat} {st st' : St}
     (h : StepRel fx cfg sym lw st st') (hpos : 0 < effMax cfg lw) :
     mu st' + (effMax cfg lw - st'.result.length) < mu st + (effMax cfg lw - st.result.length) := by
-  cases h with
-  | push style gs rest hs hl hfit =>
-    simp only [mu, hs, clusterCount, List.length_cons]
-    split <;> split <;> omega
-  | nl style gs rest hs hl heq hnl =>
-    simp only [mu, hs, clusterCount, List.length_cons, List.length_nil]
-    split <;> split <;> omega
-  | split0 style gs rest hs hl hge hnf hw hns hnfo =>
-    have := not_limit_lt hl hpos
-    simp only [mu, hs, clusterCount, List.length_cons, List.length_append, List.length_nil]
-    split <;> simp <;> omega
-  | splitk style gs rest hs hl hge hnf hw =>
-    have := not_limit_lt hl hpos
-    have := takeFitF_snd_length_le fx st.len (widthLeft cfg lw st.len gs) gs
-    simp only [mu, hs, clusterCount, List.length_cons, List.length_append, List.length_nil]
-    split <;> simp <;> omega
+  have hlim : st.result.length + 1 < effMax cfg lw := by
+    cases h with
+    | push _ _ _ _ hl _ => exact not_limit_lt hl hpos
+    | nl _ _ _ _ hl _ _ => exact not_limit_lt hl hpos
+    | split0 _ _ _ _ hl _ _ _ _ => exact not_limit_lt hl hpos
+    | splitk _ _ _ _ hl _ _ _ _ => exact not_limit_lt hl hpos
+  rcases no_progress_cases h with hlt | ⟨_, _, _, _, _, _, _, _, _, hc, hst, hc', hl', row, hrow⟩
+  · have hres : st.result.length ≤ st'.result.length := by
+      cases h <;> simp
+    omega
+  · have : mu st' = mu st := by
+      simp only [mu, hst, hc, hc', hl']
+      split <;> simp
+    rw [this, hrow]
+    simp
+    omega
 
 /-- A decreasing measure bounds the fuel the loop needs. -/
 theorem loop_some_of_measure {fx : Fixes} {cfg : Cfg} {sym lw : Nat} (m : St → Nat) (P : St → Prop)
@@ -172,23 +214,25 @@ theorem loop_terminates_fits (fx : Fixes) (cfg : Cfg) (sym lw : Nat) (line : Lis
     omega
 
 /-- With the progress repair the loop always terminates within the model's fuel. -/
-theorem loop_terminates_forced (fx : Fixes) (cfg : Cfg) (sym lw : Nat) (line : List Sec)
-    (hf : fx.forceProgress = true) :
+theorem loop_terminates_repaired (fx : Fixes) (cfg : Cfg) (sym lw : Nat) (line : List Sec)
+    (hf : fx.stuckStop = true) :
     ∃ r, loop fx cfg sym lw (fuelFor cfg lw line) (initSt line) = some r := by
-  apply loop_some_of_measure mu (fun _ => True)
-  · intro st st' _ h
-    exact ⟨trivial, mu_step_fits (Or.inl hf) h⟩
-  · trivial
-  · have := mu_init_lt_fuel cfg lw line
-    omega
+  by_cases hpos : 0 < effMax cfg lw
+  · exact loop_terminates_limited fx cfg sym lw line hpos
+  · apply loop_some_of_measure mu (fun _ => True)
+    · intro st st' _ h
+      exact ⟨trivial, mu_step_fits (Or.inl ⟨hf, by omega⟩) h⟩
+    · trivial
+    · have := mu_init_lt_fuel cfg lw line
+      omega
 
 /-! ### The stuck state -/
 
 /-- A state at the start of a row whose next cluster does not leave room for the wrap symbol,
-with no line limit: the iteration emits a row holding only the wrap symbol and returns to the
-same stack. -/
+with no line limit, on the unrepaired code: the iteration emits a row holding only the wrap
+symbol and returns to the same stack. -/
 structure Stuck (fx : Fixes) (cfg : Cfg) (lw : Nat) (st : St) : Prop where
-  unfixed : fx.forceProgress = false
+  unfixed : fx.stuckStop = false
   unlimited : effMax cfg lw = 0
   len0 : st.len = 0
   curr0 : st.curr = []
@@ -207,18 +251,16 @@ theorem stuck_step {fx : Fixes} {cfg : Cfg} {sym lw : Nat} {st : St} (h : Stuck 
   have h3 : ¬ (gsWidth (g :: gs) = lw ∧ isLoneNl rest = true) := fun ⟨a, b⟩ => hnf ⟨a, Or.inr (Or.inl b)⟩
   have h4 : ¬ (gsWidth (g :: gs) = lw ∧ fx.zwPerfectFit = true ∧ allZeroWidth rest = true) :=
     fun ⟨a, b⟩ => hnf ⟨a, Or.inr (Or.inr b)⟩
-  simp only [Nat.lt_irrefl, decide_false, Bool.false_and, Bool.false_eq_true, if_false, h1, h2, h3, h4]
+  simp only [Nat.lt_irrefl, decide_false, Bool.false_and, Bool.false_eq_true, if_false, h1, h2, h3, h4,
+    hfx, false_and]
   have hwl : widthLeft cfg lw 0 (g :: gs) < g.w := by
     unfold widthLeft
     omega
-  have hforce : ¬ (fx.forceProgress = true ∧ (0 : Nat) = 0) := by simp [hfx]
-  have htf : takeFitF fx 0 (widthLeft cfg lw 0 (g :: gs)) (g :: gs) = ([], g :: gs) := by
-    rw [takeFitF_eq fx 0 _ _ (Or.inl hfx), takeFit_stuck _ g gs hwl]
   split
   · refine ⟨st.curr ++ [(sym, [cfg.leftSym])], ?_⟩
     congr 1
     cases st; simp_all
-  · rw [htf]
+  · rw [takeFit_stuck _ g gs hwl]
     refine ⟨st.curr ++ [(style, []), (sym, [cfg.leftSym])], ?_⟩
     congr 1
     cases st; simp_all
